@@ -67,6 +67,8 @@ def gen_case_c03(rng):
     if rng.random() < 0.35:
         # add an encrypted component (flag + tag, as set_config makes it, or flag with other tags)
         blob = G.gen_payload(rng)
+        if rng.random() < 0.12:
+            blob = rng.randbytes(rng.choice((1024, 1025, 1040, 2048, 2049, 4100)))
         desc = [(0xC3, b"\x03"), (0xC2, b"\x02"), (0xC1, b"\x03"), (0xC5, b"\x01")] if rng.random() < 0.7 else G.gen_desc(rng) + [(0xC2, b"\x02")]
         if len({t for t, _ in desc}) == len(desc):
             case.comps.insert(rng.randrange(len(case.comps) + 1), MComp(desc, blob, len(blob), True))
